@@ -649,6 +649,23 @@ func framer(args []string) {
 				}
 			}
 		}
+		// the length field is 10 bits: a short frame's bytes under a leader whose HIGH length bits are set (CRC right for
+		// the short reading, 0x55 filler behind it so that the long reading has its bytes and a wrong CRC) is not a frame
+		for k, hi := range []byte{0x01, 0x02, 0x03} {
+			typ := []int{1005, 1230, 4072}[k]
+			f := gen.Frame(rng, typ, 5+rng.Intn(200), 0)
+			c := append([]byte{}, f...)
+			c[1] |= hi
+			tr.FixCRC(c) // CRC over leader + the short payload
+			filler := make([]byte, 1100)
+			for i := range filler {
+				filler[i] = 0x55
+			}
+			cls := fmt.Sprintf("high length bits %#x set over a short frame", hi)
+			run(gen.Cat(c, filler), cls)
+			getMessage(w, gen.Cat(c, filler), cls)
+			getMessage(w, c, cls+" (buffer ends with the short frame)")
+		}
 		// history: a handler that has just accepted a valid frame is given the same frame again with damage confined
 		// to the payload (type bits, length and the stored CRC bytes as before), directly and in one stream
 		for k := 0; k < 3*scale; k++ {
